@@ -11,8 +11,12 @@
 //! by the model), 1132 MONITOR hyp_new_conform_b, 1140 one operation (predicted from the transport the MODEL built),
 //! 1141 MONITOR hyp_conform_b, 1142 MONITOR every hypercall inside an allocated memory BAR (the harness's own
 //! knowledge of the BARs), 1143 MONITOR whole life, 1150 / 1151 HypCam words, 1152 MONITOR the hypercalls of a `new`
-//! made through HypCam, 1361 / 1363 configuration access, 1362 MONITOR hyp_cfg_conform_b, 1251 / 1252 (C12 monitors).
-use super::c11::{apply, base_dev, enc_err, err_name, gen_op, le32, mk, spec_select, walk, Dev, Op};
+//! made through HypCam, 1361 / 1363 configuration access, 1362 MONITOR hyp_cfg_conform_b, 1251 / 1252 / 1253 (C12 monitors:
+//! command and BAR registers as before, no sizing write while decoding is enabled), 1257 MONITOR (C12) the addresses of a batch
+//! of HypCam requests: exactly phys_base + offset, inside the window, distinct.
+//! `run_c12` (C12): HypCam with CAM bases that are NOT aligned to the window size, and `HypPciTransport::new` on functions whose
+//! command register has decoding enabled AND bits without a named flag.
+use super::c11::{apply, base_dev, build_dev, cap, enc_err, err_name, gen_op, layout, le32, mk, spec_select, walk, Cap, Dev, Op};
 use super::c12::{enc_log, Spec, Twin};
 use super::c13::{class2, offsets, rd_dyn, wr_dyn, TYPES};
 use crate::Ctx;
@@ -143,6 +147,9 @@ pub fn new_case(ctx: &mut Ctx, dev: &Dev, wrapped: bool, claimed: bool) -> Optio
     ctx.tr.line(1251, &[dev.f.cmd as u128, f1.cmd as u128], &[1]);
     let mut bi = dev.f.vals(); bi.extend(f1.vals());
     ctx.tr.line(1252, &bi, &[1]);
+    // no all-ones pattern reaches a BAR register while decoding is enabled; only command and BAR registers are written
+    let mut di = dev.f.enc(); di.push(cfg_log.len() as u128); di.extend(enc_log(&cfg_log));
+    ctx.tr.line(1253, &di, &[1]);
     if let Some((cam, base)) = cam_line {
         let mut ci = vec![matches!(cam, Cam::Ecam) as u128, base as u128, df.bus as u128, df.device as u128, df.function as u128, cfg_log.len() as u128];
         for (w, off, v, _) in &cfg_log { ci.extend([*w as u128, *off as u128, *v as u128]); }
@@ -345,4 +352,124 @@ pub fn run_config(ctx: &mut Ctx) {
     ctx.tr.scenario("c13-hyp-missing");
     cfg_window(ctx, None, false, &small);
     cfg_window(ctx, None, true, &small);
+}
+
+// ---------------------------------------------------------------- C12: HypCam addresses, probing by HypPciTransport::new
+fn cam_window(cam: Cam) -> u64 { match cam { Cam::Ecam => 0x1000_0000, Cam::MmioCam => 0x0100_0000 } }
+
+/// HypCam::read_word / write_word for every boundary (bus, device, function, register) tuple, both mechanisms, over CAM bases
+/// that are aligned to the window size and bases that are only page-aligned (0x3_9800_0000: 128 MiB-aligned ECAM; 0x1000;
+/// 0xfff_f000; 0xc080_0000: MMIO CAM; the top of the address space; random 4 KiB-aligned ones).  Per request line 1150 (the
+/// model predicts the hypercall), per batch of requests line 1257 MONITOR: address = base + offset exactly, inside
+/// [base, base + window), distinct requests at distinct addresses.
+fn cam_addrs(ctx: &mut Ctx) {
+    let buses = [0u8, 1, 0x7f, 0x80, 0xff];
+    let devs = [0u8, 1, 15, 16, 31, 32, 255];
+    let fns = [0u8, 1, 7, 8, 255];
+    let regs = [0u8, 4, 0x34, 0xfc, 1, 2, 3, 0xff];
+    for cam in [Cam::Ecam, Cam::MmioCam] {
+        let win = cam_window(cam);
+        let top = (u64::MAX - win) + 1;   // the last base whose window fits: 2^64 - window
+        let mut bases: Vec<u64> = vec![
+            // aligned to the window size
+            0, win, 0xe000_0000, 0x0000_0080_0000_0000, top,
+            // page-aligned only
+            0x3_9800_0000, 0x1000, 0xfff_f000, 0xc080_0000, 0x0800_0000, win - 0x1000, win + 0x1000, win / 2, 0x7fff_f000, 0xffff_f000,
+            0x0000_7fff_ffff_f000, top - 0x1000, top - win / 2, top - win + 0x1000];
+        for _ in 0..ctx.budget(6, 6) { bases.push((ctx.rng.next() & !0xfff).min(top)); }
+        for _ in 0..ctx.budget(2, 6) { bases.push((ctx.rng.boundary(40) & !0xfff).min(top)); }
+        let mut seen: Vec<u64> = vec![]; bases.retain(|b| if seen.contains(b) { false } else { seen.push(*b); true });
+        for base in bases {
+            ctx.tr.scenario(&format!("c12-hyp-cam-{}-{:#x}", if cam == Cam::Ecam { "ecam" } else { "mmio" }, base));
+            install(None);
+            ctx.tr.note(if base % win == 0 { "hyp_cam_base_window_aligned" } else { "hyp_cam_base_page_aligned_only" });
+            let ecam = matches!(cam, Cam::Ecam) as u128;
+            // batches mix all buses (an absorbed offset bit makes two BUSES collide): one batch per device value, one random
+            let mut batches: Vec<Vec<(u8, u8, u8, u8)>> = devs.iter().map(|d| {
+                let mut v = vec![]; for b in buses { for f in fns { for r in regs { v.push((b, *d, f, r)); } } } v }).collect();
+            let n = ctx.budget(160, 2);
+            batches.push((0..n).map(|_| (ctx.rng.next() as u8, ctx.rng.below(32) as u8, ctx.rng.below(8) as u8, (ctx.rng.next() as u8) & 0xfc)).collect());
+            for batch in batches {
+                let mut mi = vec![ecam, base as u128, batch.len() as u128];
+                for (bus, dev, func, reg) in batch {
+                    let df = DeviceFunction { bus, device: dev, function: func };
+                    let wr = ctx.rng.chance(1, 2);
+                    let data = ctx.rng.boundary(32) as u32;
+                    let ans = ctx.rng.boundary(64);
+                    set_answers(&[ans]);
+                    let mut hc = HypCam::new(base, cam);
+                    let r = catch_unwind(AssertUnwindSafe(|| if wr { hc.write_word(df, reg, data); 0u128 } else { hc.read_word(df, reg) as u128 }));
+                    let res: [u128; 2] = match r { Ok(v) => [0, v], Err(_) => [2, 0] };
+                    let tr = take_log();
+                    let mut outs = res.to_vec(); outs.extend(&tr);
+                    ctx.tr.line(1150, &[ctx.release as u128, ecam, base as u128, bus as u128, dev as u128, func as u128, reg as u128, wr as u128, data as u128, ans as u128], &outs);
+                    // (is_write, address, size, data) per hypercall
+                    let cnt = (tr.len() / 4) as u128;
+                    let (addr, width) = if tr.len() >= 4 { (tr[1], tr[2]) } else { (0, 0) };
+                    mi.extend([bus as u128, dev as u128, func as u128, reg as u128, res[0], cnt, addr, width]);
+                    ctx.tr.note(if res[0] == 2 { "hyp_cam_refused" } else { "hyp_cam_addressed" });
+                }
+                ctx.tr.line(1257, &mi, &[1]);
+            }
+        }
+    }
+}
+
+/// command values with decoding enabled AND bits that no flag of `Command` names (bit 7, bits 11-15)
+fn probe_commands(ctx: &mut Ctx) -> Vec<u16> {
+    let mut v: Vec<u16> = vec![0x0086, 0xf887, 0xffff, 0x0083, 0x0087, 0xf883, 0xf882, 0xf881, 0x0881, 0x8002, 0x0407, 0x0006, 0x0000, 0xf880, 0x0080, 0xfffc];
+    for b in 0..16 { v.push((1 << b) | 3); v.push((1 << b) | 2); v.push((1 << b) | 1); }
+    for _ in 0..ctx.budget(120, 10) { let c = ctx.rng.next() as u16; v.push(if ctx.rng.chance(3, 4) { c | *ctx.rng.pick(&[1u16, 2, 3]) } else { c }); }
+    v
+}
+/// a function for the probing scenarios: the structures in 32-bit / 64-bit memory BARs (one or two), next to I/O and
+/// unimplemented BARs; variants on which `new` fails after one, two or three probes
+fn probe_dev(ctx: &mut Ctx, variant: u64, cmd: u16) -> Dev {
+    let k = ctx.rng.range(14, 20) as u32;
+    let m32 = Spec::Mem { ty: 0, pf: ctx.rng.chance(1, 2), k, m: 32, addr: 0xfe00_0000 & !((1u32 << k) - 1) };
+    let m64 = Spec::Mem64 { pf: ctx.rng.chance(1, 2), k: 16, m: 64, addr: 0x0000_00f0_0000_0000 };
+    let io = Spec::Io { k: 8, m: 16, addr: 0xc000 };
+    let caps_on = |bar: u8| -> Vec<Cap> { vec![cap(0x40, 1, bar, 0x0000, 0x38), cap(0x58, 3, bar, 0x1000, 1), cap(0x70, 4, bar, 0x2000, 0x100), cap(0x88, 2, bar, 0x3000, 0x100)] };
+    let (specs, caps): (Vec<Spec>, Vec<Cap>) = match variant % 10 {
+        0 => (vec![m32], caps_on(0)),
+        1 => (vec![m64], caps_on(0)),
+        2 => (vec![io, m32], caps_on(1)),
+        3 => { let mut c = caps_on(0); c[1].bar = 1; c[3].bar = 1; (vec![m32, m64], c) }
+        // the 64-bit BAR in the last two registers
+        4 => (vec![Spec::Unimpl, io, Spec::Unimpl, Spec::Unimpl, m64], caps_on(4)),
+        // an I/O BAR named by the ISR structure: UnexpectedIoBar after two probes
+        5 => { let mut c = caps_on(1); c[1].bar = 0; (vec![io, m32], c) }
+        // an unallocated BAR named by the notification structure: BarNotAllocated after two probes
+        6 => { let mut c = caps_on(0); c[3].bar = 1; (vec![m32, Spec::Mem { ty: 0, pf: false, k: 14, m: 32, addr: 0 }], c) }
+        // no notification structure: the error comes after the probe for the common configuration
+        7 => { let mut c = caps_on(0); c.remove(3); (vec![m32], c) }
+        // no device-specific structure: three probes
+        8 => { let mut c = caps_on(0); c.remove(2); (vec![m64, m32], c) }
+        // the device-specific structure beyond the BAR: BarOffsetOutOfRange after four probes
+        _ => { let mut c = caps_on(0); c[2].offset = 0xffff_fff0; c[2].length = 0x48; (vec![m32], c) }
+    };
+    let (bars, starts) = layout(&specs);
+    build_dev(0x1042_1af4, cmd, ctx.rng.next() as u16 & !0x0010, bars, &starts, &[0; 6], &caps, 0, 0)
+}
+/// `HypPciTransport::new` leaves the command register and all six BAR registers exactly as they were and never writes a
+/// sizing pattern while decoding is enabled (lines 1131 / 1132 and the C12 monitors 1251 / 1252 / 1253 of `new_case`)
+fn probes(ctx: &mut Ctx) {
+    ctx.tr.scenario("c12-hyp-probe-directed");
+    let cmds = probe_commands(ctx);
+    for (i, cmd) in cmds.iter().enumerate() {
+        if i == 64 { ctx.tr.scenario("c12-hyp-probe-random"); }
+        // the three commands of the brief on every variant, the others on rotating variants
+        let variants: Vec<u64> = if i < 3 { (0..10).collect() } else { vec![i as u64, ctx.rng.below(10)] };
+        for v in variants {
+            let dev = probe_dev(ctx, v, *cmd);
+            let wrapped = ctx.rng.chance(1, 4);
+            if let Some(mut rig) = new_case(ctx, &dev, wrapped, true) { drop(rig.t.take()); take_log(); }
+            ctx.tr.note(if cmd & 3 != 0 && cmd & 0xf880 != 0 { "hyp_probe_decode_on_unnamed_bits" } else if cmd & 3 != 0 { "hyp_probe_decode_on" } else { "hyp_probe_decode_off" });
+        }
+    }
+}
+
+pub fn run_c12(ctx: &mut Ctx) {
+    probes(ctx);
+    cam_addrs(ctx);
 }
